@@ -125,6 +125,8 @@ def path_rules(res: RuleResult, recs_by_ctx) -> Dict[str, int]:
             elif alerts:
                 res.add("C04-R3", f"{handler} / at most one alert per message", True, f"{alerts[0]['func']}:{alerts[0]['line']}", "one alert on the path", context=r["ctx"])
             for a in alerts:
+                rew = [w for w in r.get("inbound_rewrites", []) if w["idx"] < a["idx"]]
+                res.add("C04-R3", f"{a['func']} / the callback sees the message as it was received (fields not rewritten before alert)", not rew, f"{a['func']}:{a['line']}", "no store to the inbound message's fields before alert()" if not rew else f"{rew[0]['func']}:{rew[0]['line']} overwrites `{rew[0]['field']}` of the inbound message before alert(): the callback receives fields that were never received (e.g. the outgoing reply built in place)", r["witness"] if rew else None, context=r["ctx"])
                 res.add("C04-R3", f"{a['func']} / alert is passed the inbound message", a["inbound"], f"{a['func']}:{a['line']}", "callback sees the message that caused the change" if a["inbound"] else "alert() is called with something other than the handler's own message", r["witness"] if not a["inbound"] else None, context=r["ctx"])
                 late = [m for m in pers if m["idx"] > a["idx"]]
                 res.add("C04-R3", f"{a['func']} / no persisted mutation after alert", not late, f"{a['func']}:{a['line']}", "callback runs after the state reflects the message" if not late else f"{late[0]['cat']} {late[0]['desc']} happens after the callback fired", r["witness"] if late else None, context=r["ctx"])
@@ -166,6 +168,10 @@ def run(analysis: Analysis, tier: str) -> RuleResult:
         "Lock-step equality with a reference model over histories is not decided.",
     ]
     who_may_call(analysis, res)
+    # "nodes appear ... through id assignment": every id up to MAX_NODE_ID can be assigned (shared with C06-R2)
+    from .c06 import allocator_gives_up_late
+
+    allocator_gives_up_late(analysis, res, "C04-R1")
     specs = specs_for(analysis, tier)
     recs = common.pmap(analysis, pathsum.logic_records, specs)
     res.contexts = ["/".join(s) for s in specs]
